@@ -131,7 +131,25 @@ type evalOpts struct {
 
 var evalCount int
 
-func evalSrc(src string, o evalOpts) (res outcome) {
+// hangs: programs whose evaluation did not come back within the deadline plus hangGrace (the goroutine is
+// abandoned: an uncancellable Go-level loop cannot be stopped from outside)
+var hangs []string
+
+const hangGrace = 4 * time.Second
+
+func evalSrc(src string, o evalOpts) outcome {
+	ch := make(chan outcome, 1)
+	go func() { ch <- evalSrcInner(src, o) }()
+	select {
+	case r := <-ch:
+		return r
+	case <-time.After(o.dur + hangGrace):
+		hangs = append(hangs, src)
+		return outcome{parsed: true, class: "H", msg: "no return within deadline + " + hangGrace.String()}
+	}
+}
+
+func evalSrcInner(src string, o evalOpts) (res outcome) {
 	evalCount++
 	stage := "parse"
 	defer func() {
@@ -208,6 +226,9 @@ func check(c *Ctx, gen, src string, o evalOpts) outcome {
 	if r.class == "P" {
 		c.Fail("go-panic:"+r.pclass+":"+r.origin, src, gen+": "+r.msg)
 	}
+	if r.class == "H" {
+		c.Fail("hang:uncancellable:"+gen, src, r.msg)
+	}
 	if r.class != "V" {
 		c.NonTrivial(gen + "|" + r.class + "|" + firstWords(r))
 	}
@@ -275,6 +296,8 @@ func obsOf(r outcome, val func(object.Object) string) string {
 		return "G depth"
 	case "P":
 		return "P " + r.pclass
+	case "H":
+		return "HANG"
 	}
 	return "? " + r.class
 }
@@ -924,6 +947,9 @@ func sweep(c *Ctx) {
 			c.Count("sweep:" + r.class)
 			if r.class == "P" {
 				c.Fail("ext-panic:"+name+":"+strings.Join(ks, ","), src, r.pclass+" in "+r.origin+": "+r.msg)
+			}
+			if r.class == "H" {
+				c.Fail("ext-hang:"+name+":"+strings.Join(ks, ","), src, r.msg)
 			}
 			if r.class != "V" {
 				c.NonTrivial("sweep|" + name + "|" + r.class + "|" + strings.Join(ks, ","))
